@@ -199,6 +199,8 @@ class RepeatedNodeWrapper(MutableSequence[_M]):
         if isinstance(index, int):
             assert not isinstance(value, Iterable)
             item = self._repeated.items[index]
+            if item is value:
+                return  # e.g. xs[i] += 1: the in-place operator hands back the very node that is already there
             if index < 0:
                 index += len(self._repeated.items)
             self._repeated.token_store.splice(value.detach(), item.first_token, item.last_token)
